@@ -171,3 +171,7 @@ Check c07_spec_of_model_strict : forall ops, dom07 ops = true ->
   mixed_kinds_registered ops (run world0 ops) = false -> spec_c07 ops (run world0 ops) = true.
 Check c07_known_class_delimited : forall ops, dom07 ops = true ->
   mixed_kinds_registered ops (run world0 ops) = true -> known_mixed_kinds ops (run world0 ops) = true.
+Check c07_spec_of_model_custom : forall ops, PV.Proofs.C07SpecCustomRegs.dom07c ops = true ->
+  spec_c07 ops (run world0 ops) = true \/ known_mixed_kinds ops (run world0 ops) = true.
+Check c07_spec_of_model_strict_custom : forall ops, PV.Proofs.C07SpecCustomRegs.dom07c ops = true ->
+  mixed_kinds_registered ops (run world0 ops) = false -> spec_c07 ops (run world0 ops) = true.
